@@ -153,7 +153,7 @@ def _run(res, work):
     })
     if rep:
         res.coverage.update({
-            "struct_level": {k: rep[k] for k in ("evaluations", "structs", "bitfields", "distinct_nontrivial", "allocation_units_compared", "known_region_hits", "storage_bits_histogram")},
+            "struct_level": {k: rep[k] for k in ("evaluations", "structs", "bitfields", "distinct_nontrivial", "allocation_units_compared", "constructor_tests", "template_batches", "known_region_hits", "storage_bits_histogram")},
             "evaluations": tot["ops"] + rep["evaluations"],
             "distinct_nontrivial": tot["distinct"] + rep["distinct_nontrivial"],
         })
